@@ -460,6 +460,12 @@ func (a *allowerContext) resetCreate() {
 // It returns a NotAllowed error if the event is not allowed.
 // If there was an error loading the auth events then it returns that error.
 func (a *allowerContext) allowed(event PDU) error {
+	// The context outlives a single check (state resolution keeps one for a whole
+	// resolution and refills its provider), so this is the place to make sure that
+	// the auth events are all from one room, not only the entry point below.
+	if !a.provider.Valid() {
+		return errorf("authEvents contains events from different rooms")
+	}
 	switch event.Type() {
 	case spec.MRoomCreate:
 		return a.createEventAllowed(event)
